@@ -139,9 +139,23 @@ func (fr *FileReader) readNextBlock() (*Block, error) {
 	if err := blockHeader.Deserialize(headerBuf); err != nil {
 		return nil, err
 	}
+	// A block that claims more bytes than the file still holds was being
+	// appended when the process died (torn tail). Everything before it is
+	// intact, so treat it as the end of the log instead of failing the whole
+	// load - and never allocate a buffer for bytes that are not there.
+	remaining, err := fr.remainingFrom(offset + BlockHeaderSize)
+	if err != nil {
+		return nil, err
+	}
+	if int64(blockHeader.CompressedSize) > remaining {
+		return nil, io.EOF
+	}
 	// Read compressed data
 	compressedData := make([]byte, blockHeader.CompressedSize)
 	if _, err := io.ReadFull(fr.file, compressedData); err != nil {
+		if errors.Is(err, io.ErrUnexpectedEOF) {
+			return nil, io.EOF
+		}
 		return nil, err
 	}
 	// Parse block
@@ -151,6 +165,18 @@ func (fr *FileReader) readNextBlock() (*Block, error) {
 	}
 	block.Offset = offset
 	return block, nil
+}
+
+// remainingFrom returns how many bytes the file holds from pos to its end.
+func (fr *FileReader) remainingFrom(pos int64) (int64, error) {
+	info, err := fr.file.Stat()
+	if err != nil {
+		return 0, err
+	}
+	if info.Size() < pos {
+		return 0, nil
+	}
+	return info.Size() - pos, nil
 }
 
 // BlockScanResult contains aggregated statistics from scanning block headers.
